@@ -938,6 +938,9 @@ def split_curve(obj, param, **kwargs):
     if not isinstance(obj, abstract.Curve):
         raise GeomdlException("Input shape must be an instance of abstract.Curve class")
 
+    # Use the existing knot value when the parameter coincides with a knot
+    param = ops.snap_params_to_knots(obj, [param])[0]
+
     if param == obj.domain[0] or param == obj.domain[1]:
         raise GeomdlException("Cannot split from the domain edge")
 
@@ -1104,6 +1107,9 @@ def split_surface_u(obj, param, **kwargs):
     if not isinstance(obj, abstract.Surface):
         raise GeomdlException("Input shape must be an instance of abstract.Surface class")
 
+    # Use the existing knot value when the parameter coincides with a knot
+    param = ops.snap_params_to_knots(obj, [param, None])[0]
+
     if param == obj.domain[0][0] or param == obj.domain[0][1]:
         raise GeomdlException("Cannot split from the u-domain edge")
 
@@ -1177,6 +1183,9 @@ def split_surface_v(obj, param, **kwargs):
     # Validate input
     if not isinstance(obj, abstract.Surface):
         raise GeomdlException("Input shape must be an instance of abstract.Surface class")
+
+    # Use the existing knot value when the parameter coincides with a knot
+    param = ops.snap_params_to_knots(obj, [None, param])[1]
 
     if param == obj.domain[1][0] or param == obj.domain[1][1]:
         raise GeomdlException("Cannot split from the v-domain edge")
